@@ -453,20 +453,32 @@ func checkC03SelfLink(p *Prog, r *Report) {
 	}
 	r.fn(funcName(f))
 	for _, hasSlash := range []bool{true, false} {
-		in := &interp{p: p, f: f, maxPaths: 200}
+		in := &interp{p: p, f: f, maxPaths: 200, inline: smallHelper}
 		asked := false
 		in.callHook = func(st *istate, c *ssa.Call, args []*aval) *aval {
 			if calleeIs(c, "strings", "HasSuffix") && len(args) == 2 && args[0].String() == "prepath" && args[1].String() == `"/"` {
 				asked = true
 				return boolv(hasSlash)
 			}
+			// strings.TrimSuffix(prepath, "/"): the prefix without its final slash
+			if calleeIs(c, "strings", "TrimSuffix") && len(args) == 2 && args[0].String() == "prepath" && args[1].String() == `"/"` {
+				asked = true
+				if hasSlash {
+					return symv("P-", c.Type())
+				}
+				return symv("prepath", c.Type())
+			}
 			return nil
 		}
 		outs := in.run(map[*ssa.Parameter]*aval{f.Params[1]: symv("prepath", f.Params[1].Type())})
 		canon := func(tok string) string {
 			switch {
+			case tok == "prepath" && hasSlash:
+				return "P- /" // a prefix that ends with a slash, written as its stem and the slash
 			case tok == "prepath":
 				return "P"
+			case tok == "P-":
+				return "P-"
 			case strings.Contains(tok, "GetType()") && strings.HasSuffix(tok, ".Name"):
 				return "T"
 			case strings.Contains(tok, `Get("id")`):
@@ -476,7 +488,7 @@ func checkC03SelfLink(p *Prog, r *Report) {
 			}
 			return "?" + tok
 		}
-		want := "P T / I"
+		want := "P- / T / I"
 		if !hasSlash {
 			want = "P / T / I"
 		}
@@ -499,7 +511,7 @@ func checkC03SelfLink(p *Prog, r *Report) {
 				r.decide(got == want, "C03.self-link", key+":"+got, p.pos(f.Pos()), "link = "+want, "the self link is assembled as "+got+" instead of "+want)
 			} else {
 				// the branch without id / type name: the bare prefix
-				wantBare := "P"
+				wantBare := "P- /"
 				if !hasSlash {
 					wantBare = "P /"
 				}
